@@ -164,9 +164,25 @@ func init() {
 			fmt.Sprintf("goroutine 1 [running]:\nmain.a()\n\t%s/modA/f.go:1 +0x1\nmain.b()\n\t%s/modA/sub/f.go:1 +0x1\nmain.c()\n\t%s/modAB/f.go:1 +0x1\n", r, r, r),
 		}
 		for i, d := range overlap {
+			// (an empty entry in the middle of the list of local GOPATHs, as GOPATH=a::b gives)
 			inputs = append(inputs, input{name: fmt.Sprint("overlapping roots ", i), dump: d,
-				opts: &stack.Opts{LocalGOROOT: "/nonexistent-goroot", LocalGOPATHs: []string{gp}, GuessPaths: true, NameArguments: true}})
+				opts: &stack.Opts{LocalGOROOT: "/nonexistent-goroot", LocalGOPATHs: []string{gp, "", filepath.Join(root, "gopath2")}, GuessPaths: true, NameArguments: true}})
 		}
+		optsBefore := make([]stack.Opts, len(inputs))
+		for i := range inputs {
+			optsBefore[i] = *inputs[i].opts
+			optsBefore[i].LocalGOPATHs = append([]string{}, inputs[i].opts.LocalGOPATHs...)
+		}
+		defer func() {
+			for i := range inputs {
+				if !reflect.DeepEqual(optsBefore[i].LocalGOPATHs, append([]string{}, inputs[i].opts.LocalGOPATHs...)) || optsBefore[i].LocalGOROOT != inputs[i].opts.LocalGOROOT {
+					res.violation(Finding{Property: "C06", Aspect: "opts-written", What: inputs[i].name + ": scanning wrote to the options value it was given (a later scan with the same value sees other options)", Expected: optsBefore[i].LocalGOPATHs, Observed: inputs[i].opts.LocalGOPATHs})
+					res.violation(Finding{Property: "C14", Aspect: "opts-written", What: inputs[i].name + ": scanning wrote to the options value it was given (shared between concurrent callers)", Expected: optsBefore[i].LocalGOPATHs, Observed: inputs[i].opts.LocalGOPATHs})
+					_ = res.write(*c.out)
+					break
+				}
+			}
+		}()
 		if len(inputs) < 5 {
 			res.infra("too few inputs")
 			return res.write(*c.out)
